@@ -232,7 +232,12 @@ def applyMem (m : Mem) : Prim → Mem
   | .fqPush n e => { m with fq := m.fq ++ [(n, e)] }
   | .fqDel n => { m with fq := eraseFirst (fun x => x.1 == n) m.fq }
   | .waitAdd p n e =>
-    if m.wait.any (fun w => w.1 == p && w.2.1 == n) then m
+    -- toWait keeps the file already listed behind p; the log search of isFileReady has moved the
+    -- search window of that very object (same version: the timer callback and the list share it)
+    if m.wait.any (fun w => w.1 == p && w.2.1 == n) then
+      { m with wait := m.wait.map (fun w =>
+          if w.1 == p && w.2.1 == n && w.2.2.hash == e.hash
+          then (w.1, w.2.1, { w.2.2 with prevScanBeg := e.prevScanBeg }) else w) }
     else { m with wait := m.wait ++ [(p, n, e)] }
   | .waitTake p => { m with wait := m.wait.filter (fun w => w.1 != p) }
   | .timerSet n => { m with timers := if m.timers.contains n then m.timers else m.timers ++ [n] }
